@@ -144,6 +144,20 @@ fn c31_hsla_new_in_range() {
     assert!(0.0 <= c.sat(), "saturation >= 0");
     assert!(0.0 <= c.alpha() && c.alpha() <= 1.0, "alpha in [0,1]");
 }
+/// C31 (statement: lightness of a color created by hsl() is in 0-100%):
+/// `Hsla::new` — what hsl()/hsla() call with the given lightness — keeps the
+/// lightness in [0, 1].  KNOWN FINDING: it does not (hsl(0, 50%, 120%) has
+/// lightness 120%); clamping it breaks the baseline's
+/// core_functions::color::hsl::…::out_of_gamut tests, which expect the
+/// out-of-range value to pass through.
+#[kani::proof]
+#[kani::stub(deg_mod, deg_mod_by_contract)]
+fn c31_hsla_new_lightness_in_range() {
+    let l: f64 = kani::any();
+    kani::assume(l.is_finite());
+    let c = Hsla::new(0.0, 0.5, l, 1.0, true);
+    assert!(0.0 <= c.lum() && c.lum() <= 1.0, "lightness in [0, 100%]");
+}
 /// C31: in-range channels are stored unchanged.
 #[kani::proof]
 #[kani::stub(deg_mod, deg_mod_by_contract)]
